@@ -160,7 +160,46 @@ def pieces(w):
     return _PIECES[w]
 
 
+def execute_sampling(cfg, V):
+    """the time function evaluated on an ARRAY of instants (rational multiples of the period, jump instants included, any first sample)
+    equals its evaluation instant by instant"""
+    r = cirlib.repo(); pf = r['pf']
+    w = cfg['wave']
+    A = V.val('A', 'r'); T = V.val('T', 'pos')
+    kw = {}
+    if cfg['offset'] == 'sym': kw['offset'] = V.val('off', 'rany')
+    elif cfg['offset'] != 'default': kw['offset'] = cfg['offset']
+    q = cfg['phase_quarter_turns']
+    if V.sym:
+        phi = core.sym_pi() * F(q, 2) if q else 0
+        def mod_stub(a, b):
+            ratio = (SC.lift(a) / SC.lift(b))
+            if not ratio.p.is_const(): raise core.Inconclusive('mod of an instant that is not a rational multiple of the period')
+            c = ratio.p.const_value().re
+            return SC.lift(b) * (c - (c.numerator // c.denominator))
+        core.CTX.extra['mod_stub'] = mod_stub
+        ts = [T * F(a, b) for a, b in cfg['samples']]
+        arr = np.array(ts, dtype=object)
+        one = lambda t: np.array([t], dtype=object)
+    else:
+        import math
+        phi = math.pi * q / 2
+        ts = [T * a / b for a, b in cfg['samples']]
+        arr = np.array(ts, dtype=float)
+        one = lambda t: np.array([t], dtype=float)
+    f = pf.periodic_function(w)(period=T, amplitude=A, phase=phi, **kw)
+    tf = f.time_function
+    ya = tf(arr)
+    obs = [Ob('one value per instant', 0 if len(ya) == len(ts) else 1)]
+    if len(ya) != len(ts): return obs
+    for i, t in enumerate(ts):
+        yi = tf(one(t))[0]
+        obs.append(Ob(f'sample {i} of the array evaluation equals the evaluation at that instant', ya[i] - yi, [A, 1]))
+    return obs
+
+
 def execute(cfg, V):
+    if cfg.get('kind') == 'sampling': return execute_sampling(cfg, V)
     r = cirlib.repo(); pf = r['pf']
     w = cfg['wave']; n = cfg['n']
     A = V.val('A', 'r'); phi = V.val('phi', 'ang'); off = V.val('off', 'rany'); T = V.val('T', 'pos')
@@ -202,6 +241,14 @@ def execute(cfg, V):
 
 
 def worker(cfg):
+    if cfg.get('kind') == 'sampling':
+        res = {'cfg': cfg, 'key': json.dumps(cfg, sort_keys=True)}
+        out = sx.run_symbolic(execute, cfg, cirlib.patched_modules(), rounds=0, seed=driver.seed_of())
+        for v in out['violations']: v['sig'].update({'wave': cfg['wave'], 'kind_': 'sampling'}); v['pid'] = PID
+        res.update({k: out[k] for k in ('paths', 'obligations', 'discharged', 'queries', 'violations', 'inconclusive', 'out_of_bound')})
+        res['solver_s'] = out['solver_s']
+        res['sample'] = dict(cfg, obligations=out['obligations'], discharged=out['discharged'])
+        return res
     res = {'cfg': {k: v for k, v in cfg.items() if k != 'pieces'}, 'key': f"{cfg['wave']}:{cfg['n']}:{cfg.get('twin')}"}
     cfg = dict(cfg, pieces=pieces(cfg['wave']))
     out = sx.run_symbolic(execute, cfg, cirlib.patched_modules(), rounds=0, seed=driver.seed_of())
@@ -222,6 +269,15 @@ def worker(cfg):
 def configs(tier, seed):
     N = 12 if tier == 'quick' else 60
     cfgs = [{'wave': w, 'n': n} for w in WAVES for n in range(0, N + 1)]
+    grids = [[(0, 1), (1, 8), (1, 4), (1, 2), (5, 8), (3, 4), (1, 1)], [(1, 2), (0, 1), (3, 8), (9, 8)], [(1, 8), (1, 2), (7, 8)], [(1, 4), (3, 4), (1, 3)], [(3, 4), (1, 4), (0, 1)]]
+    for w in WAVES:
+        for off in ('default', 'sym', 0, 1):
+            for q in (0, 1, 2, 3):
+                for g in (grids if tier == 'thorough' else grids[:2] + grids[3:4]):
+                    if w in ('cos', 'sin'):
+                        g = [x for x in g if 4 % x[1] == 0]          # the exact cosine is available at quarter periods only
+                        if len(g) < 2: continue
+                    cfgs.append({'kind': 'sampling', 'wave': w, 'n': -1, 'offset': off, 'phase_quarter_turns': q, 'samples': g})
     cfgs += [{'wave': w, 'n': 3, 'twin': True} for w in ('rect', 'tri', 'saw')] + [{'wave': 'cos', 'n': 1, 'twin': True}]
     return cfgs, N
 
@@ -238,7 +294,7 @@ def main(tier):
     rep.extra['time_function_pieces'] = {w: len(pieces(w)) for w in WAVES}
     driver.run_pool(driver.guarded(worker), cfgs, rep, chunksize=4)
     return rep.finish(
-        explanation='bounded symbolic verification: the real time functions are executed on a symbolic instant (mod as contract stub, comparison forks) to obtain their piecewise description; the true Fourier coefficient is computed from it by exact closed-form integration and compared, as polynomial identities over Q(j)(A, phi-units, offset, T, pi) decided by normal form / z3, with amplitude(n), phase(n), a(n), b(n), c(n), c(-n) returned by the real fourier_series objects, for every harmonic order up to the bound; lookup by type name returns the waveform of that name',
+        explanation='bounded symbolic verification: the real time functions are executed on a symbolic instant (mod as contract stub, comparison forks) to obtain their piecewise description; the true Fourier coefficient is computed from it by exact closed-form integration and compared, as polynomial identities over Q(j)(A, phi-units, offset, T, pi) decided by normal form / z3, with amplitude(n), phase(n), a(n), b(n), c(n), c(-n) returned by the real fourier_series objects, for every harmonic order up to the bound; lookup by type name returns the waveform of that name; the time function evaluated on an array of instants (rational multiples of the period, jump instants included, any first sample; default, integer and symbolic offset; phase 0, 1/4, 1/2, 3/4 turn) equals its evaluation instant by instant (np.vectorize\'s output-type inference from the first sample is modelled)',
         assumptions=['exact real arithmetic; pi treated as a transcendental (free) atom, which is sound and complete for identities with rational coefficients',
                      'the mod operation returns tau with 0 <= tau < T', 'harmonic orders above the bound are outside the claim',
                      'the mean-square convergence / Parseval clause is not discharged (infinite sum); only the coefficient identities are',
